@@ -5,6 +5,18 @@ import os
 VERIF = os.path.dirname(os.path.dirname(os.path.abspath(__file__)))
 
 CHECKS = {
+    "C01": dict(engine="evo", level="exploration", design="4/C01, 3.1",
+                technique="deterministic simulation: seeded program-edit histories over process lifetimes sharing one store, compared call by call with an un-memoized sibling lifetime running the same source texts",
+                text="Generated packages of memento and plain functions (constants, nested code, set/tuple constants, f-strings, positional and keyword-only defaults, tracked globals, bare/attribute/alias/hidden call edges, recursion, explicit versions, salts) are edited 1-8 times; each edit is delivered cross-process (files rewritten, fresh forked lifetime importing them, same persistent store) or in-process (re-execution of one def or of the whole module as a notebook cell, attribute rebinding, in-place mutation). After every edit auto-versioned functions are called plainly and through call/ignore_result/force_local/partial/with_context_args; each outcome must equal the outcome of a reference lifetime in which memento_function is a pass-through decorator, or be UndeclaredDependencyError. A mismatch is classified by the stale ingredient.",
+                note="Sampling over programs and histories. fork()ed lifetimes share one hash seed. The generator encodes user discipline (explicit-version bump, alias re-binding)."),
+    "C13": dict(engine="evo", level="exploration", design="4/C13, 3.1",
+                technique="deterministic simulation: seeded in-process event histories with interleaved version queries, refinement-checked against fresh lifetimes replaying the identical cells without queries",
+                text="A long lifetime executes a generated program as notebook cells in random order, then 2-8 redefinition / rebinding / mutation / swap events, with version queries through version(), fn_reference(), fresh modifier clones, fresh unregistered wrappers and previously held clones interleaved at every position on varying subsets (warm and cold cache entries). At every query point two fresh lifetimes (all cells; only live cells with mutations folded) replay the same cell texts without any earlier query and ask once: every query must succeed and equal the fresh answer, and the two fresh answers must agree.",
+                note="Sampling. Clusters are never locked. Both sides execute byte-identical source units."),
+    "C14": dict(engine="evo", level="exploration", design="4/C14, 3.1",
+                technique="deterministic simulation: invariant evaluated at every state of the program-evolution simulator (dependency sets and graph vs. the generator's reference graph; enforcement vs. the model's expected outcome)",
+                text="At every state reached by the C01 histories (freshly imported programs, after cross-process and in-process edits) the transitive and direct memento dependencies and the df() edges reported for every memento function are compared with the reference graph the generator knows (reachability through memento and same-package plain nodes, cycles, aliases, module attributes, explicit versions); every call of an auto-versioned function, plain or through a modifier clone, must raise UndeclaredDependencyError iff executing it un-memoized reaches a hidden dynamic call to a memento function outside the closure of the nearest auto-versioned memento frame.",
+                note="Sampling; reference graph and expected outcome come from ~80 lines of model code in sim/progen.py."),
     "C09": dict(engine="sched", level="exploration", design="4/C09, 2.5",
                 technique="deterministic simulation: seeded scheduler over real threads (baton passing, settrace pre-emption points, cooperative lock wrapper); random, PCT and single-pre-emption-sweep schedules",
                 text="2-3 real threads run call scripts (single calls and call_batch, equal and different keys, nested DAG) on cold store / warm store + cold cache / warm cache over filesystem, filesystem + 5 KiB cache and memory backends. A seeded scheduler decides at every call event in twosigma.memento and every line of the runner, call-stack and storage modules which thread runs next (random pre-emption, PCT d<=3, and systematic single-pre-emption sweeps). Each schedule must give every caller the sequential value, let no exception escape, run each not-yet-memoized distinct call's body exactly once (zero when warm), leave usage counter = sum of resident sizes <= budget, queue = key set without duplicates, correct resident values, and finish without deadlock within the step cap.",
